@@ -146,7 +146,7 @@ struct Engine {
     // candidates one shrinking step away (beyond generic op deletion); may be null
     void (*shrink_candidates)(const Plan &, std::vector<Plan> &out);
     // attribution after minimisation: does the minimised plan still exercise what the plan's property is about? (null = always)
-    bool (*owned)(const Plan &);
+    bool (*owned)(const Plan &, const std::string &clause);
 };
 const Engine *find_engine(const std::string &name);
 extern const Engine *const ALL_ENGINES[];
